@@ -101,6 +101,8 @@ func newRef(a *app.App, mode string, cfg engine.Config) *ref.VM {
 	v := ref.NewVM(a, mode != "long-lived")
 	v.OutputSize = cfg.OutputSize
 	v.CacheSize = cfg.CacheSize
+	v.ResetOnEmpty = cfg.ResetOnEmptyInput
+	v.First = a.First
 	if cfg.Language != "" {
 		if c, ok := refLang(cfg.Language); ok {
 			v.Lang = c
